@@ -17,6 +17,8 @@ pub struct LastBlockInfo {
     pub log_index: u64,
     pub start_time: Instant,
     pub total_processing_time: Option<Duration>,
+    /// A signed transaction was parked in the pending pool while this block is being built
+    pub has_parked_txes: bool,
 }
 
 impl LastBlockInfo {
@@ -29,6 +31,7 @@ impl LastBlockInfo {
             log_index: 0,
             start_time: Instant::now(),
             total_processing_time: None,
+            has_parked_txes: false,
         }
     }
 }
